@@ -4,6 +4,7 @@
 # replays and evidence go to /verif/.work/seedrun, not to /verif/evidence), reverts.
 export GOFLAGS=-mod=mod GOPROXY=off GOSUMDB=off GOTOOLCHAIN=local
 patch="$1"; shift
+case "$patch" in /*) ;; *) patch="$(pwd)/$patch";; esac
 cd /repo || exit 2
 git diff --quiet || { echo "/repo has uncommitted changes"; exit 2; }
 git apply "$patch" || { echo "patch does not apply"; exit 2; }
